@@ -370,7 +370,7 @@ func Check(cfg Config, prop string) int {
 		"known_finding_obligations": knownObl,
 		"known_findings":            knownHit,
 		"failed_groups":             violations,
-		"bounded":                   []string{},
+		"bounded":                   boundedOrEmpty(boundedEv),
 		"samples":                   samples,
 		"solvers_available":         solve.Available(),
 		"explanation":               "obligations = verification conditions generated from /repo's current SSA for every contract and lemma tagged with this property (post, pre@call, loop invariants, frames, order, safety, lemma), excluding those matched by a listed known finding; discharged = answered unsat by at least one solver with no solver answering sat",
